@@ -17,12 +17,15 @@ package main
 //@ ghost seen int
 
 // minVersion: the empty string is an absolute minimum; otherwise one of the two
-// arguments, and never greater than either (by semver.Compare).
+// arguments, and not greater than either in the order of its kind: Go versions
+// (the records of toolchain programs, go/version.Compare) or semantic versions
+// (module programs, semver.Compare) - the orders the version filter in generate
+// applies to the respective programs.
 //@ contract minVersion
 //@   ensures v1 == "" || v2 == "" ==> result == ""
 //@   ensures v1 != "" && v2 != "" ==> (result == v1 || result == v2)
-//@   ensures v1 != "" && v2 != "" && result == v1 ==> semver.Compare(v1, v2) <= 0
-//@   ensures v1 != "" && v2 != "" && result == v2 && result != v1 ==> semver.Compare(v1, v2) > 0
+//@   ensures v1 != "" && v2 != "" && version.IsValid(v1) && version.IsValid(v2) ==> version.Compare(result, v1) <= 0 && version.Compare(result, v2) <= 0
+//@   ensures v1 != "" && v2 != "" && semver.IsValid(v1) && semver.IsValid(v2) ==> semver.Compare(result, v1) <= 0 && semver.Compare(result, v2) <= 0
 //@   modifies nothing
 
 // generate: each record's counter expression goes under its own program, as a
